@@ -93,8 +93,11 @@ UnaryRules(sp) == IF RuleFilter = {} THEN UnaryRulesAll(sp)
 BinOps == {"Sum", "Prod", "Quot", "InfConv"}
 
 (* well-formedness of a rule application (mathematics, not ODL) *)
+Rescaling == {"ArgScale", "RVec", "Comp"}
 Applicable(r, e) ==
   IF e.f.op = "InfConv" THEN r.op = "Conj"
+  \* (two argument rescalings in a row add nothing but 32-bit pressure on the exact stencil)
+  ELSE IF r.op \in Rescaling /\ e.f.op \in Rescaling THEN FALSE
   ELSE IF r.op = "LScale" /\ r.s[1] < 0 THEN FiniteValued(e.f)
   ELSE IF r.op = "Conj" THEN Convex(e.f) /\ HasSubdiff(e.f)
   ELSE IF r.op = "Comp" THEN e.sp.kind # "part"
